@@ -125,12 +125,60 @@ let dv_diff (a : devs_result) (b : devs_result) : string =
     (if a.dv_names <> b.dv_names then "reversedPeopleDict" else "");
     (if a.dv_tick_size <> b.dv_tick_size then "tickSize" else "") ])
 
+(* ---- where two values differ first (the concrete failing row of a big value) *)
+let show_z v = string_of_int (int_of_z v)
+let clip s = if String.length s > 160 then String.sub s 0 160 ^ "..." else s
+let show_zs l = clip ("[" ^ String.concat " " (List.map show_z l) ^ "]")
+let show_kvs l = clip ("{" ^ String.concat " " (List.map (fun (k, v) -> show_z k ^ ":" ^ show_z v) l) ^ "}")
+let first_diff (show : 'a -> string) (what : string) (exp : 'a list) (got : 'a list) : string =
+  let rec go i e g = match e, g with
+    | [], [] -> ""
+    | x :: e', y :: g' -> if x = y then go (i + 1) e' g'
+        else Printf.sprintf " [%s: %d rows; first difference at row %d: expected %s, read back %s]" what (List.length exp) i (show x) (show y)
+    | _ -> Printf.sprintf " [%s: expected %d rows, read back %d]" what (List.length exp) (List.length got) in
+  go 0 exp got
+let show_name n = clip (String.concat "" (List.map (fun c -> let c = int_of_z c in
+  if c >= 32 && c < 127 then String.make 1 (Char.chr c) else Printf.sprintf "\\x%02x" c) n))
+let cp_where (e : couples_result) (g : couples_result) : string =
+  first_diff show_kvs "FilesMatrix" e.cp_files_matrix g.cp_files_matrix
+  ^ first_diff show_kvs "PeopleMatrix" e.cp_people_matrix g.cp_people_matrix
+  ^ first_diff show_zs "PeopleFiles" e.cp_people_files g.cp_people_files
+  ^ first_diff show_z "FilesLines" e.cp_files_lines g.cp_files_lines
+  ^ first_diff show_name "Files" e.cp_files g.cp_files
+  ^ first_diff show_name "reversedPeopleDict" e.cp_names g.cp_names
+let bd_where (e : burndown_result) (g : burndown_result) : string =
+  first_diff show_zs "GlobalHistory" e.bd_global g.bd_global
+  ^ first_diff (fun (n, m) -> show_name n ^ " " ^ clip (String.concat "" (List.map show_zs m))) "FileHistories" e.bd_files g.bd_files
+  ^ first_diff (fun (n, t) -> show_name n ^ " " ^ show_kvs t) "FileOwnership" e.bd_ownership g.bd_ownership
+  ^ first_diff (fun m -> clip (String.concat "" (List.map show_zs m))) "PeopleHistories" e.bd_people g.bd_people
+  ^ (match e.bd_matrix, g.bd_matrix with Some a, Some b -> first_diff show_zs "PeopleMatrix" a b | _ -> "")
+  ^ first_diff show_name "reversedPeopleDict" e.bd_names g.bd_names
+let dv_where (e : devs_result) (g : devs_result) : string =
+  first_diff (fun (t, ds) -> "tick " ^ show_z t ^ " with " ^ string_of_int (List.length ds) ^ " developer(s) " ^
+      clip (String.concat " " (List.map (fun (d, s) -> show_z d ^ ":" ^ show_z s.dt_commits ^ "/" ^ show_z s.dt_stats.ls_added
+        ^ "/" ^ string_of_int (List.length s.dt_langs) ^ "langs") ds))) "Ticks" e.dv_ticks g.dv_ticks
+  ^ first_diff show_name "reversedPeopleDict" e.dv_names g.dv_names
+
 (* generic replay of one serialize -> message -> deserialize observation.
    [enc] model message, [dec] model decoder, [in_domain] the property applies, [expected] what the property
    demands of the decoded value, [diff] names the differing fields *)
-let replay id what obs ~enc ~msg_of_sx ~dec ~res_of_sx ~in_domain ~expected ~diff ~classify =
+let replay ?(skip_model = false) id what obs ~enc ~msg_of_sx ~dec ~res_of_sx ~in_domain ~expected ~diff ~classify =
   let ser = atom (arg0 "ser" obs) in
   if in_domain then count (what ^ "_in_domain") else count (what ^ "_outside_domain");
+  if skip_model then begin
+    (* scale cases beyond the reach of the quadratic list model: judged by the property oracle only *)
+    count (what ^ "_oracle_only");
+    if in_domain && ser <> "ok" then
+      propfail id (Printf.sprintf "%s: binary Serialize of a well-formed in-range result ends in %s" what ser);
+    if ser = "ok" then
+      (match args (field "dec" obs) with
+       | [A "ok"; r] ->
+           let got = res_of_sx r in
+           if in_domain && got <> expected () then propfail id (Printf.sprintf "%s: %s" what (classify got))
+       | od -> if in_domain then propfail id (Printf.sprintf "%s: Deserialize of the bytes just written ends in %s" what (atom (List.hd od))))
+  end else begin
+  let enc = enc () in
+  let expected = expected () in
   if kind_of enc <> ser then mismatch id (Printf.sprintf "%s: Serialize is %s, the model says %s" what ser (kind_of enc));
   if in_domain && ser <> "ok" then
     propfail id (Printf.sprintf "%s: binary Serialize of a well-formed in-range result ends in %s" what ser);
@@ -154,12 +202,16 @@ let replay id what obs ~enc ~msg_of_sx ~dec ~res_of_sx ~in_domain ~expected ~dif
               propfail id (Printf.sprintf "%s: %s" what (classify got))
         | _ -> if in_domain then propfail id (Printf.sprintf "%s: Deserialize of the bytes just written ends in %s" what okind))
    | _ -> ())
+  end
 
 let () =
   iter_cases (fun id c ->
     let r = List.hd (args (field "res" c)) in
     let obs = field "obs" c in
     let kind = atom (arg0 "kind" c) in
+    let n = String.length kind in
+    let xl = n > 3 && String.sub kind (n - 3) 3 = "-xl" in
+    if n > 3 && String.sub kind 0 3 = "sc-" then count "scale_cases";
     match tag r with
     | "burndown" ->
         let b = burndown_of_sx r in
@@ -167,8 +219,8 @@ let () =
         let aligned = aligned_burndown b in
         if shape && not aligned then count "burndown_shape_not_aligned";
         let expected = normalise_burndown b in
-        replay id "burndown" obs ~enc:(encode_burndown b) ~msg_of_sx:bmsg_of_sx ~dec:decode_burndown
-          ~res_of_sx:burndown_of_sx ~in_domain:shape ~expected ~diff:bd_diff
+        replay ~skip_model:xl id "burndown" obs ~enc:(fun () -> encode_burndown b) ~msg_of_sx:bmsg_of_sx ~dec:decode_burndown
+          ~res_of_sx:burndown_of_sx ~in_domain:shape ~expected:(fun () -> expected) ~diff:bd_diff
           ~classify:(fun got ->
             let d = bd_diff expected got in
             (* the two known deviations are recognised only in the generator streams dedicated to them *)
@@ -176,8 +228,9 @@ let () =
               "developer names beyond PeopleHistories are dropped by the round trip (reversedPeopleDict longer than PeopleHistories, e.g. the <unmatched> entry of a loaded people dictionary)"
             else if kind = "bd-no-ownership" && d = "FileOwnership" && not aligned then
               "a file history without an ownership table comes back with an empty table (hand-made result; Finalize makes a table for every file history)"
-            else "decoded result differs from the input beyond clamping in: " ^ d);
+            else "decoded result differs from the input beyond clamping in: " ^ d ^ bd_where expected got);
         (* text format *)
+        if xl then count "burndown_text_not_modelled_xl" else
         let mt = text_burndown b in
         (match args (field "text" obs) with
          | [A "ok"; gs] ->
@@ -200,9 +253,9 @@ let () =
     | "devs" ->
         let d = devs_of_sx r in
         let dom = shape_devs d && in_range_devs d in
-        replay id "devs" obs ~enc:(Ok (encode_devs d)) ~msg_of_sx:dmsg_of_sx ~dec:(fun m -> Ok (decode_devs m))
-          ~res_of_sx:devs_of_sx ~in_domain:dom ~expected:d ~diff:dv_diff
-          ~classify:(fun got -> "decoded result differs from the input in: " ^ dv_diff d got);
+        replay ~skip_model:xl id "devs" obs ~enc:(fun () -> Ok (encode_devs d)) ~msg_of_sx:dmsg_of_sx ~dec:(fun m -> Ok (decode_devs m))
+          ~res_of_sx:devs_of_sx ~in_domain:dom ~expected:(fun () -> d) ~diff:dv_diff
+          ~classify:(fun got -> "decoded result differs from the input in: " ^ dv_diff d got ^ dv_where d got);
         (match args (field "text" obs) with
          | [A "ok"] -> ()
          | _ -> if dom then propfail id "devs text: Serialize(text) fails on a well-formed result")
@@ -210,9 +263,10 @@ let () =
         let cp = couples_of_sx r in
         let dom = shape_couples cp && in_range_couples cp in
         let expected = normalise_couples cp in
-        replay id "couples" obs ~enc:(encode_couples cp) ~msg_of_sx:cmsg_of_sx ~dec:decode_couples
-          ~res_of_sx:couples_of_sx ~in_domain:dom ~expected ~diff:cp_diff
-          ~classify:(fun got -> "decoded result differs from the input (modulo the unnamed developers' file lists) in: " ^ cp_diff expected got);
+        replay ~skip_model:xl id "couples" obs ~enc:(fun () -> encode_couples cp) ~msg_of_sx:cmsg_of_sx ~dec:decode_couples
+          ~res_of_sx:couples_of_sx ~in_domain:dom ~expected:(fun () -> expected) ~diff:cp_diff
+          ~classify:(fun got -> "decoded result differs from the input (modulo the unnamed developers' file lists) in: " ^ cp_diff expected got
+                                ^ cp_where expected got);
         (* sortByNumberOfFiles indexes Files with the PeopleFiles entries: the text needs them to be file indexes *)
         let pf_ok = List.for_all (List.for_all (fun v -> int_of_z v >= 0 && int_of_z v < List.length cp.cp_files))
                       cp.cp_people_files in
@@ -236,7 +290,8 @@ let () =
          | Ok s, [A "ok"; o] ->
              let os = csr_of_sx o in
              if os <> s then mismatch id "DenseToCompressedSparseRowMatrix differs from the model";
-             if rect m && csr_to_dense os <> Ok m then
+             if List.length m > 20000 then count "csr_decode_oracle_skipped_rows_over_20000"
+             else if rect m && csr_to_dense os <> Ok m then
                propfail id "DenseToCompressedSparseRowMatrix: decoding the CSR matrix does not give back the matrix"
          | Panic, [A "panic"] -> ()
          | ms, _ -> mismatch id ("DenseToCompressedSparseRowMatrix outcome differs, model " ^ kind_of ms));
